@@ -524,10 +524,25 @@ async fn run_mpsc(case: Case) {
     };
 
     // Senders: value i is sent by sender i % nsenders; each keeps its Sending handles.
+    struct Acc {
+        v: Val,
+        sending: rch::Sending<Val>,
+        /// Cached outcome (`try_result` hands a result out only once).
+        res: Option<bool>,
+        /// Still queued (unresolved) when the sending side learned of the close.
+        queued_at_learn: bool,
+    }
     struct SenderLog {
-        accepted: Vec<(Val, rch::Sending<Val>)>,
+        accepted: Vec<Acc>,
         error: Option<(bool, Option<ClosedReason>, String)>,
         done: bool,
+    }
+    fn poll_all(log: &mut SenderLog) {
+        for a in log.accepted.iter_mut() {
+            if a.res.is_none() {
+                a.res = a.sending.try_result().map(|r| r.is_ok());
+            }
+        }
     }
     let logs: Vec<Arc<Mutex<SenderLog>>> =
         (0..nsenders).map(|_| Arc::new(Mutex::new(SenderLog { accepted: Vec::new(), error: None, done: false }))).collect();
@@ -540,7 +555,7 @@ async fn run_mpsc(case: Case) {
         handles.push(kit::spawn(async move {
             for v in mine {
                 match tx.send(v.clone()).await {
-                    Ok(sending) => log.lock().unwrap().accepted.push((v, sending)),
+                    Ok(sending) => log.lock().unwrap().accepted.push(Acc { v, sending, res: None, queued_at_learn: false }),
                     Err(e) => {
                         log.lock().unwrap().error = Some((e.is_closed(), e.closed_reason(), format!("{e}")));
                         break;
@@ -554,6 +569,31 @@ async fn run_mpsc(case: Case) {
             kit::activity();
             tx
         }));
+    }
+    // The moment the sending side learns of the close: whatever is still queued then must not be
+    // transmitted any more (at most the one value whose transmission is in progress).
+    let learned = Arc::new(Mutex::new(false));
+    if case.event == Event::ReceiverClose {
+        let tx = tx.clone();
+        let logs = logs.clone();
+        let learned = learned.clone();
+        kit::spawn(async move {
+            tx.closed().await;
+            for log in &logs {
+                let mut log = log.lock().unwrap();
+                poll_all(&mut log);
+                for a in log.accepted.iter_mut() {
+                    a.queued_at_learn = a.res.is_none();
+                    if a.res == Some(false) {
+                        // Was queued when the close arrived and has been reported as not sent.
+                        kit::probe("queued_value_dropped_by_close");
+                    }
+                }
+            }
+            *learned.lock().unwrap() = true;
+            kit::probe("sender_learned_of_close");
+            drop(tx);
+        });
     }
     drop(tx);
 
@@ -570,6 +610,11 @@ async fn run_mpsc(case: Case) {
                 return;
             }
             if case.event == Event::ReceiverClose && count >= case.pos && !closed {
+                // A slow receiver lets values pile up in the sender's queue before the close.
+                let pause = kit::pick(&[0u64, 0, 200, 700]); // below the quiescence window of settle()
+                if pause > 0 {
+                    tokio::time::sleep(Duration::from_millis(pause)).await;
+                }
                 rx.close();
                 closed = true;
                 kit::probe("receiver_closed");
@@ -668,8 +713,10 @@ async fn run_mpsc(case: Case) {
         let mine_received: Vec<&Val> = received.iter().filter(|v| matches!(v, Val::Small(i) | Val::Blob(i, _) if (*i as usize) < N && (*i as usize) % nsenders == s)).collect();
         let mut acked = Vec::new();
         let mut seen_failure = false;
-        for (v, sending) in log.accepted.iter_mut() {
-            match sending.try_result() {
+        poll_all(&mut log);
+        for a in log.accepted.iter() {
+            let v = &a.v;
+            match a.res.map(|ok| if ok { Ok(()) } else { Err(()) }) {
                 Some(Ok(())) => {
                     if seen_failure {
                         viol(&case, "ack-after-failure", format!("sender {s}: a value was acknowledged after an earlier one failed"));
@@ -703,6 +750,39 @@ async fn run_mpsc(case: Case) {
     if case.event != Event::ReceiverDrop && end.as_deref() != Some("end") {
         viol(&case, "no-end-of-stream", format!("receiver state after all senders were dropped: {end:?}"));
         return;
+    }
+    if case.event == Event::ReceiverClose && *learned.lock().unwrap() {
+        // All clones feed one queue and one transmitting task: at most one value can have been in
+        // transmission when the sending side learned of the close.
+        let mut started_after: Vec<String> = Vec::new();
+        let mut queued = 0;
+        for log in &logs {
+            let log = log.lock().unwrap();
+            for a in log.accepted.iter().filter(|a| a.queued_at_learn) {
+                queued += 1;
+                if a.res == Some(true) {
+                    started_after.push(match &a.v {
+                        Val::Small(i) => format!("Small({i})"),
+                        Val::Blob(i, b) => format!("Blob({i},{}B)", b.len()),
+                    });
+                }
+            }
+        }
+        if queued > 0 {
+            kit::probe("values_queued_when_close_learned");
+        }
+        if started_after.len() > 1 {
+            viol(
+                &case,
+                "message-started-after-close-learned",
+                format!(
+                    "{queued} values were still queued when the sender learned that the receiver was closed (closed() resolved); {} of them were transmitted and acknowledged afterwards: {:?} (at most one can have been in transmission)",
+                    started_after.len(),
+                    started_after
+                ),
+            );
+            return;
+        }
     }
     kit::set_nontrivial();
     receiver.abort();
@@ -744,7 +824,7 @@ classification and delivery oracles were evaluated; distinct = distinct (case, p
             "healthy link; connection-failure classification is covered by C06",
             "mpsc: acknowledgement of a value = its Sending handle resolves Ok",
         ],
-        required_probes: vec!["receiver_closed", "sender_dropped_mid_message", "helper_thread_ran"],
+        required_probes: vec!["receiver_closed", "sender_dropped_mid_message", "helper_thread_ran", "sender_learned_of_close", "queued_value_dropped_by_close"],
         real_components: "remoc::chmux ports, rch::base, rch::mpsc (remote receiver), default codec, Connect::framed",
         stub_components: STUB_NET,
     }]
